@@ -29,7 +29,7 @@ rows = ["| seeded change | property | what it needs to manifest | caught by |", 
 for m in sorted(glob.glob(os.path.join(ROOT, "seeded", "*", "meta.json"))):
     d = json.load(open(m)); name = os.path.basename(os.path.dirname(m))
     c = d.get("confirmed_by_lead", {})
-    rows.append("| %s | %s | %s | %s |" % (name, d.get("property"), str(d.get("needs_to_manifest", ""))[:200].replace("|", "/").replace("\n", " "), (c.get("check", "not yet run") + "; " + c.get("caught_by", ""))[:260].replace("|", "/")))
+    rows.append("| %s | %s | %s | %s |" % (name, d.get("property"), str(d.get("needs_to_manifest", ""))[:200].replace("|", "/").replace("\n", " "), ((c.get("check") or c.get("result") or "not yet run") + "; " + (", ".join(c.get("caught_by")) if isinstance(c.get("caught_by"), list) else str(c.get("caught_by", ""))))[:260].replace("|", "/")))
 t3 = "\n".join(rows)
 s = open(os.path.join(ROOT, "DESIGN.md")).read()
 for tag, t in (("STATUS", t1), ("FINDINGS", t2), ("SEEDED", t3)):
